@@ -516,3 +516,98 @@ def eval_small(e, env):
         if nm == "int" and len(args) == 1:
             return int(args[0])
     raise NotEvaluable(ast.dump(e)[:60])
+
+
+def expand_poly(e, table=None, max_terms=4000):
+    """Fully expanded multivariate polynomial of ``e`` over opaque atoms with exact rational coefficients:
+    {monomial: Fraction} where a monomial is a sorted tuple of atom keys.  + - * are distributed, division by a
+    constant folds, integer powers expand; names, attributes, subscripts, calls (with recursively expanded
+    arguments) and quotients by non-constants are atoms.  Two expressions with equal expansions are equal as real
+    functions whatever the atoms mean (so `floor` may stay uninterpreted)."""
+    table = table or {}
+
+    def key_of(poly):
+        return tuple(sorted((m, (c.numerator, c.denominator)) for m, c in poly.items()))
+
+    def atom(n):
+        if isinstance(n, ast.Call):
+            nm = ast.unparse(n.func)
+            return ("call", nm, tuple(key_of(go(a)) for a in n.args), tuple((k.arg, key_of(go(k.value))) for k in n.keywords))
+        if isinstance(n, ast.BinOp) and isinstance(n.op, ast.Div):
+            return ("div", key_of(go(n.left)), key_of(go(n.right)))
+        if isinstance(n, ast.BinOp) and isinstance(n.op, ast.Pow):
+            return ("pow", key_of(go(n.left)), key_of(go(n.right)))
+        if isinstance(n, ast.Subscript):
+            return ("sub", ast.unparse(n))
+        return ("atom", ast.unparse(n))
+
+    def mul(a, b):
+        out = {}
+        for m1, c1 in a.items():
+            for m2, c2 in b.items():
+                m = tuple(sorted(m1 + m2))
+                out[m] = out.get(m, 0) + c1 * c2
+        if len(out) > max_terms:
+            raise NotEvaluable("polynomial too large")
+        return {m: c for m, c in out.items() if c != 0}
+
+    def go(n):
+        c = const_value(n, table)
+        if c is not None:
+            return {(): c} if c != 0 else {}
+        if isinstance(n, ast.UnaryOp) and isinstance(n.op, (ast.USub, ast.UAdd)):
+            a = go(n.operand)
+            return {m: -v for m, v in a.items()} if isinstance(n.op, ast.USub) else a
+        if isinstance(n, ast.BinOp):
+            if isinstance(n.op, (ast.Add, ast.Sub)):
+                a, b = go(n.left), go(n.right)
+                out = dict(a)
+                for m, v in b.items():
+                    out[m] = out.get(m, 0) + (v if isinstance(n.op, ast.Add) else -v)
+                return {m: v for m, v in out.items() if v != 0}
+            if isinstance(n.op, ast.Mult):
+                return mul(go(n.left), go(n.right))
+            if isinstance(n.op, ast.Div):
+                d = const_value(n.right, table)
+                if d is not None and d != 0:
+                    return {m: v / d for m, v in go(n.left).items()}
+            if isinstance(n.op, ast.Pow):
+                k = const_value(n.right, table)
+                if k is not None and k.denominator == 1 and 0 <= k <= 8:
+                    out = {(): Fraction(1)}
+                    base = go(n.left)
+                    for _ in range(int(k)):
+                        out = mul(out, base)
+                    return out
+        return {(atom(n),): Fraction(1)}
+
+    return go(e)
+
+
+def sym_exec(stmts, env=None):
+    """Symbolic execution of straight-line assignments to plain names (and `x op= e`): returns name -> expression
+    over the values the names had before the block.  Anything else raises NotEvaluable."""
+    import copy
+
+    env = dict(env or {})
+
+    class S(ast.NodeTransformer):
+        def visit_Name(self, n):
+            return copy.deepcopy(env[n.id]) if isinstance(n.ctx, ast.Load) and n.id in env else n
+
+    for st in stmts:
+        if isinstance(st, ast.Expr) and isinstance(st.value, ast.Constant):
+            continue
+        if isinstance(st, ast.Pass):
+            continue
+        if isinstance(st, (ast.Assign, ast.AnnAssign)) and (st.value is not None):
+            tg = st.targets[0] if isinstance(st, ast.Assign) else st.target
+            if isinstance(tg, ast.Name) and (not isinstance(st, ast.Assign) or len(st.targets) == 1):
+                env[tg.id] = S().visit(copy.deepcopy(st.value))
+                continue
+        if isinstance(st, ast.AugAssign) and isinstance(st.target, ast.Name):
+            cur = env.get(st.target.id, ast.Name(id=st.target.id, ctx=ast.Load()))
+            env[st.target.id] = ast.BinOp(left=copy.deepcopy(cur), op=st.op, right=S().visit(copy.deepcopy(st.value)))
+            continue
+        raise NotEvaluable(f"statement not modelled: {ast.unparse(st)[:60]}")
+    return env
